@@ -795,6 +795,7 @@ func (x *Exec) dispatchClosedWorld(call *ast.CallExpr, fn *types.Func, recv Term
 	names := []string{}
 	for k, im := range impls {
 		names = append(names, types.TypeString(im.t, nil))
+		allocBefore := st.alloc
 		st.guards = append(st.guards, tags[k])
 		r := x.unboxPayload(app("i-val", recv.S), im.t)
 		// value receiver of a pointer implementer and vice versa are not mixed: the receiver type is im.t
@@ -803,6 +804,10 @@ func (x *Exec) dispatchClosedWorld(call *ast.CallExpr, fn *types.Func, recv Term
 			st.assume(app("=", rs[i].S, ri[i].S))
 		}
 		st.guards = st.guards[:len(st.guards)-1]
+		if st.alloc.S != allocBefore.S {
+			// the allocation counter only grows, whichever implementer ran
+			st.assume(app("<=", allocBefore.S, st.alloc.S))
+		}
 	}
 	x.ctx.note("dynamic call " + funcKey(fn) + " resolved over the closed world of implementers: " + strings.Join(names, ", "))
 	return rs, true
